@@ -516,7 +516,7 @@ Section VMFacts.
           + unfold step. simpl. rewrite P3. unfold remove_repeat, pop_locals. simpl. rewrite Ea. simpl.
             rewrite Eb, rep_sym, Ess. reflexivity.
           + apply (end_run f _ ridx); [lia | reflexivity |].
-            destruct P2. constructor; simpl; auto. intros ? ? X; auto.
+            destruct P2. constructor; simpl; auto.
         - eapply reaches_bind; [apply (end_back fuel mj ridx Hf Hpc Hei)|].
           intros f1 m1 Hf1 (P1 & P2 & P3). rewrite Hk in P3.
           destruct f1 as [|f]; [apply reaches_0|].
@@ -528,5 +528,365 @@ Section VMFacts.
             * simpl. intros f2 m2 Hf2 (Q1 & Q2 & Q3). apply (IH f2 m2); [lia | exact Q1 | exact Q2 | exact Q3].
       Qed.
     End Loop.
+
+    Lemma EI_false_any r1 r2 mj : EI false r1 mj -> EI false r2 mj.
+    Proof. intros H. destruct H. constructor; auto. Qed.
+
+    Lemma slots_of_cmd c e0 sl sym : In c head -> c = CUseMacro e0 sl sym -> slots_ok sl.
+    Proof.
+      intros Hin Ec n0 s Hl. apply (slots_in_subs c (head_in_prog c Hin)). subst c. simpl.
+      clear - Hl. induction sl as [|[k v0] r IH]; simpl in *; [discriminate|].
+      destruct (str_eqb k n0); [inversion Hl; now left | right; now apply IH].
+    Qed.
+
+    (* the commands of the element from position |hpre| on, no repeat in progress *)
+    Lemma pre_run : forall hs hpre lo,
+      head = hpre ++ hs -> head_sorted lo hs = true ->
+      forall fuel mj, fuel <= S n -> pc D mj = o + 1 + length hpre -> EI false 0 mj ->
+      (3 <= lo \/ r_lvd (rg D mj) = false) ->
+      Reaches L fuel mj (SegPost m0 (S e)).
+    Proof.
+      induction hs as [|c hs IH]; intros hpre lo Hh Hs fuel mj Hf Hpc Hei Hlvd.
+      - eapply reaches_bind; [apply (tail_run [] hpre false 0 Hh eq_refl fuel mj Hf Hpc Hei)|].
+        simpl. intros f1 m1 Hf1 (P1 & P2 & _). apply (end_run f1 m1 0); [lia | exact P1 | exact P2].
+      - pose proof Hs as Hs0. simpl in Hs. destruct (head_rank c) as [k|] eqn:Ek; [|discriminate].
+        apply andb_true_iff in Hs. destruct Hs as [Hk Hs]. apply Nat.ltb_lt in Hk.
+        assert (Hin : In c head) by (rewrite Hh; apply in_or_app; right; now left).
+        assert (Hnth : nth_error prog (pc D mj) = Some c).
+        { rewrite Hpc. apply N_head. rewrite Hh. rewrite nth_error_app2 by lia.
+          replace (length hpre - length hpre) with 0 by lia. reflexivity. }
+        assert (Hh' : head = (hpre ++ [c]) ++ hs) by (rewrite <- app_assoc; exact Hh).
+        assert (Hlen : o + 1 + length (hpre ++ [c]) = S (o + 1 + length hpre)) by (rewrite app_length; simpl; lia).
+        assert (Hlt : pc D mj < L).
+        { assert (length hpre < length head) by (rewrite Hh, app_length; simpl; lia). lia. }
+        assert (Tail : 5 < k -> Reaches L fuel mj (SegPost m0 (S e))).
+        { intros H5. eapply reaches_bind.
+          - apply (tail_run (c :: hs) hpre false 0 Hh); [|exact Hf | exact Hpc | exact Hei].
+            simpl. rewrite Ek. apply andb_true_iff. split; [now apply Nat.ltb_lt | exact Hs].
+          - simpl. intros f1 m1 Hf1 (P1 & P2 & _). apply (end_run f1 m1 0); [lia | exact P1 | exact P2]. }
+        destruct fuel as [|f]; [apply reaches_0|].
+        assert (Next : forall m1 : machD, stepD (runD f) c mj = Done m1 ->
+                  pc D m1 = S (pc D mj) -> EI false 0 m1 -> (3 <= k \/ r_lvd (rg D m1) = false) ->
+                  Reaches L (S f) mj (SegPost m0 (S e))).
+        { intros m1 E1 E2 E3 E4. eapply reaches_step; [exact Hlt | exact Hnth | exact E1 |].
+          apply (IH _ k Hh' Hs f m1); [lia | lia | exact E3 | exact E4]. }
+        assert (Jump : forall m1 : machD, stepD (runD f) c mj = Done m1 -> pc D m1 = e -> EI false 0 m1 ->
+                  Reaches L (S f) mj (SegPost m0 (S e))).
+        { intros m1 E1 E2 E3. eapply reaches_step; [exact Hlt | exact Hnth | exact E1 |].
+          apply (end_run f m1 0); [lia | exact E2 | exact E3]. }
+        pose proof (ei_rep _ _ _ Hei) as Erep. simpl in Erep.
+        destruct c; simpl in Ek; inversion Ek; subst k; try (apply Tail; lia).
+        + (* CDefine *)
+          assert (Elv : r_lvd (rg D mj) = false) by (destruct Hlvd; [lia | assumption]).
+          destruct (do_defines args false (cx D mj)) as [found c1] eqn:Ed.
+          pose proof (do_defines_scopes _ _ _ _ _ Ed) as Sc. simpl in Sc.
+          pose proof (ei_cx _ _ _ Hei) as Ecx. rewrite Elv in Ecx. simpl in Ecx. inversion Ecx as [Ecx'].
+          eapply Next; [unfold step; simpl; rewrite Ed; reflexivity | reflexivity | | left; lia].
+          destruct Hei. constructor; simpl; auto.
+          unfold unwind. destruct found; [rewrite Sc, Ecx'; reflexivity | rewrite Sc, Ecx'; reflexivity].
+        + (* CCondition *)
+          destruct (o_cond (dat D mj) (CCondition e0 sym)) eqn:Ec.
+          * eapply Next; [unfold step; simpl; rewrite Ec; reflexivity | reflexivity | | left; lia].
+            destruct Hei. constructor; simpl; auto.
+          * assert (Hsym : lookup_sym tab sym = Some e) by (apply (head_sym _ _ Hin); reflexivity).
+            eapply Jump; [unfold step; simpl; rewrite Ec, Hsym; reflexivity | reflexivity |].
+            destruct Hei. constructor; simpl; auto.
+        + (* CRepeat *)
+          assert (Hsym : lookup_sym tab sym = Some e) by (apply (head_sym _ _ Hin); reflexivity).
+          destruct (o_rep (dat D mj) (CRepeat v e0 sym)) as [| |k] eqn:Er.
+          * eapply Next; [unfold step; simpl; rewrite Erep, Er; reflexivity | reflexivity | | left; lia].
+            destruct Hei. constructor; simpl; auto.
+          * eapply Jump; [unfold step; simpl; rewrite Erep, Er, Hsym; reflexivity | reflexivity |].
+            destruct Hei. constructor; simpl; auto.
+          * eapply reaches_step; [exact Hlt | exact Hnth | unfold step; simpl; rewrite Erep, Er; reflexivity |].
+            eapply reaches_bind.
+            -- apply (tail_run hs _ true (o + 1 + length hpre) Hh' Hs f); [lia | simpl; lia |].
+               destruct Hei. constructor; simpl; auto; [simpl in *; congruence | eauto |].
+               now rewrite unwind_add_repeat.
+            -- simpl. intros f2 m2 Hf2 (Q1 & Q2 & Q3).
+               apply (loop_run hpre v e0 sym hs Hh Hs k f2 m2); [lia | exact Q1 | exact Q2 | exact Q3].
+        + (* CUseMacro *)
+          assert (Hsym : lookup_sym tab sym = Some e) by (apply (head_sym _ _ Hin); reflexivity).
+          assert (Plain : Reaches L (S f) mj (SegPost m0 (S e))).
+          { destruct (o_mac (dat D mj) (CUseMacro e0 slots sym)) as [| |i] eqn:Em.
+            - eapply Next; [unfold step; simpl; rewrite Em, Hsym; reflexivity | reflexivity | |
+                            destruct Hlvd; [left; lia | right; simpl; assumption]].
+              destruct Hei. constructor; simpl; auto.
+            - eapply Next; [unfold step; simpl; rewrite Em; reflexivity | reflexivity | |
+                            destruct Hlvd; [left; lia | right; simpl; assumption]].
+              destruct Hei. constructor; simpl; auto.
+            - destruct (nth_error subs i) as [s|] eqn:Es.
+              + eapply Jump; [unfold step; simpl; rewrite Em, Es, Hsym; reflexivity | reflexivity |].
+                destruct Hei. constructor; simpl; auto.
+                * eapply nth_error_In; eauto.
+                * eapply slots_of_cmd; eauto.
+              + eapply Next; [unfold step; simpl; rewrite Em, Es; reflexivity | reflexivity | |
+                              destruct Hlvd; [left; lia | right; simpl; assumption]].
+                destruct Hei. constructor; simpl; auto. }
+          exact Plain.
+        + (* CDefineSlot *)
+          assert (Hsym : lookup_sym tab sym = Some e) by (apply (head_sym _ _ Hin); reflexivity).
+          destruct (lookup_slot (curs D mj) name) as [s|] eqn:Esl.
+          * eapply Jump; [unfold step; simpl; rewrite Esl, Hsym; reflexivity | reflexivity |].
+            destruct Hgood0 as (_ & G2 & _).
+            destruct Hei. constructor; simpl; auto. apply (G2 name). congruence.
+          * eapply Next; [unfold step; simpl; rewrite Esl; reflexivity | reflexivity | |
+                          destruct Hlvd; [left; lia | right; simpl; assumption]].
+            destruct Hei. constructor; simpl; auto.
+    Qed.
+
+    (* the whole element *)
+    Lemma elem_run fuel : fuel <= S n -> pc D m0 = o -> Reaches L fuel m0 (SegPost m0 (S e)).
+    Proof.
+      intros Hf Hpc. destruct fuel as [|f]; [apply reaches_0|].
+      eapply reaches_step; [lia | rewrite Hpc; apply N_sc | apply (step_scope _ _ _ Hsc) |].
+      apply (pre_run head [] 0 eq_refl Hsorted f); [lia | simpl; lia | | right; reflexivity].
+      destruct Hgood0 as (G1 & G2 & G3). constructor; simpl; auto.
+    Qed.
   End Elem.
+
+  Definition SegStmt (n : nat) (o : nat) (l : list cmd) : Prop :=
+    forall pre post, prog = pre ++ l ++ post -> length pre = o ->
+    forall L fuel m, fuel <= n -> o + length l <= L -> pc D m = o -> Good m ->
+    Reaches L fuel m (SegPost m (o + length l)).
+
+  Lemma SegPost_trans m m1 m2 t1 t2 : SegPost m t1 m1 -> SegPost m1 t2 m2 -> SegPost m t2 m2.
+  Proof.
+    intros (A1 & A2 & A3 & A4 & A5 & A6) (B1 & B2 & B3 & B4 & B5 & B6).
+    repeat split; auto; congruence.
+  Qed.
+
+  Lemma step_fuel n : ElemP n ->
+    (forall o l, wfitems tab o l -> SegStmt (S n) o l) /\ (forall o l, wfelem tab o l -> SegStmt (S n) o l).
+  Proof.
+    intros Hn. apply (wf_min tab (SegStmt (S n)) (SegStmt (S n))).
+    - (* no items *)
+      intros o pre post Hp Hl L fuel m Hf HL Hpc Hg. apply reaches_here.
+      repeat split; auto; [simpl; lia | apply Hg].
+    - (* OUTPUT *)
+      intros o c rest Hout _ IH pre post Hp Hl L fuel m Hf HL Hpc Hg. simpl in HL.
+      destruct fuel as [|f]; [apply reaches_0|].
+      assert (Hnth : nth_error prog (pc D m) = Some c).
+      { rewrite Hpc, <- Hl. replace (length pre) with (length pre + 0) by lia.
+        rewrite (nth_error_seg pre (c :: rest) post 0 Hp); [reflexivity | simpl; lia]. }
+      eapply reaches_step; [lia | exact Hnth | apply (step_out _ _ _ Hout) |].
+      eapply reaches_weaken.
+      + apply (IH (pre ++ [c]) post); [rewrite Hp, <- app_assoc; reflexivity | rewrite app_length; simpl; lia | lia | lia |
+                                        simpl; lia | exact Hg].
+      + intros m' (A1 & A2 & A3 & A4 & A5 & A6). simpl in *. repeat split; auto. lia.
+    - (* element followed by items *)
+      intros o el rest _ IHel _ IHrest pre post Hp Hl L fuel m Hf HL Hpc Hg. rewrite app_length in HL.
+      eapply reaches_bind.
+      + apply (IHel pre (rest ++ post)); [rewrite Hp, <- app_assoc; reflexivity | exact Hl | exact Hf | lia | exact Hpc | exact Hg].
+      + intros f1 m1 Hf1 P1. eapply reaches_weaken.
+        * apply (IHrest (pre ++ el) post); [rewrite Hp, <- !app_assoc; reflexivity | rewrite app_length; lia | lia | lia | apply P1 |].
+          destruct P1 as (A1 & A2 & A3 & A4 & A5 & A6). destruct Hg as (G1 & G2 & G3).
+          repeat split; [exact A6 | rewrite A4; exact G2 | rewrite A3; exact G3].
+        * intros m2 P2. rewrite app_length. replace (o + (length el + length rest)) with (o + length el + length rest) by lia.
+          eapply SegPost_trans; eauto.
+    - (* one element *)
+      intros o sc head st body en Hsc Hsorted Hst Hen Hsyms _ IHbody pre post Hp Hl L fuel m Hf HL Hpc Hg.
+      assert (Len : length (sc :: head ++ st :: body ++ [en]) = 3 + length head + length body).
+      { simpl. rewrite app_length. simpl. rewrite app_length. simpl. lia. }
+      rewrite Len in *.
+      replace (o + (3 + length head + length body)) with (S (o + 2 + length head + length body)) by lia.
+      apply (elem_run n Hn o (o + 2 + length head + length body) sc head st body en pre post eq_refl Hp Hl
+                      Hsc Hsorted Hst Hen Hsyms); auto. lia.
+  Qed.
+
+  Lemma all_fuel : forall n, ElemP n.
+  Proof.
+    induction n as [|n IH].
+    - intros o el pre post Hp Hl W L fuel m Hf. assert (fuel = 0) by lia. subst. intros. apply reaches_0.
+    - intros o el pre post Hp Hl W. exact (proj2 (step_fuel n IH) o el W pre post Hp Hl).
+  Qed.
+
+  Lemma items_all : forall n o l, wfitems tab o l -> SegStmt n o l.
+  Proof.
+    intros [|n] o l W.
+    - intros pre post Hp Hl L fuel m Hf. assert (fuel = 0) by lia. subst. intros. apply reaches_0.
+    - exact (proj1 (step_fuel n (all_fuel n)) o l W).
+  Qed.
+
+  (* ---- the whole program ---- *)
+  Theorem vm_run_restores :
+    wfitems tab 0 prog ->
+    forall fuel c d,
+      vm_run prog tab subs D o_cond o_rep o_val o_mac o_upd fuel c d <> Stuck /\
+      forall mf, vm_run prog tab subs D o_cond o_rep o_val o_mac o_upd fuel c d = Done mf ->
+        c_sc (cx D mf) = c_sc c /\ sstack D mf = [] /\ pc D mf = length prog.
+  Proof.
+    intros W fuel c d. unfold vm_run.
+    assert (R : Reaches (length prog) fuel (init D c d) (SegPost (init D c d) (0 + length prog))).
+    { apply (items_all fuel 0 prog W [] []); auto; [now rewrite app_nil_r | ].
+      repeat split; simpl; auto; intros ? ? X; discriminate X. }
+    destruct R as [R|(f' & m' & Hle & Hr & (P1 & P2 & P3 & P4 & P5 & P6))].
+    - rewrite R. split; [discriminate | intros mf X; discriminate X].
+    - rewrite Hr. destruct (run_at_limit f' (length prog) m') as [X|X]; [simpl in P1; lia | |]; rewrite X.
+      + split; [discriminate | intros mf Y; discriminate Y].
+      + split; [discriminate|]. intros mf Y. inversion Y; subst mf. simpl in *. auto.
+  Qed.
 End VMFacts.
+
+(* ---- closed form: for every program accepted by wf_program ---- *)
+Lemma in_prog_slots p c s : In c p -> In s (cmd_slots c) -> In s (prog_slots p).
+Proof. intros Hc Hs. unfold prog_slots. apply in_flat_map. eauto. Qed.
+
+Theorem context_restored :
+  forall (p : program) (t : symtab) (m : macrotab), wf_program p t m = true ->
+  forall (D : Type) o_cond o_rep o_val o_mac o_upd (fuel : nat) (c : ctx) (d : D),
+    vm_run p t (all_subs p m) D o_cond o_rep o_val o_mac o_upd fuel c d <> Stuck /\
+    forall mf, vm_run p t (all_subs p m) D o_cond o_rep o_val o_mac o_upd fuel c d = Done mf ->
+      c_sc (cx D mf) = c_sc c /\ sstack D mf = [] /\ pc D mf = length p.
+Proof.
+  intros p t m Hwf D o_cond o_rep o_val o_mac o_upd fuel c d.
+  destruct (wf_program_sound p t m Hwf) as [W V].
+  apply vm_run_restores; auto.
+  intros c0 Hc s Hs. unfold all_subs. apply in_or_app. right. eapply in_prog_slots; eauto.
+Qed.
+
+(* ---- globals: an expansion only ever binds names of explicit `global` defines
+        (and re-binds the built-in `repeat` / `attrs` slots) ---- *)
+Section Globals.
+  Variable prog : program.
+  Variable tab : symtab.
+  Variable subs : list subt.
+  Variable D : Type.
+  Variable o_cond : D -> cmd -> bool.
+  Variable o_rep : D -> cmd -> rep_dec.
+  Variable o_val : D -> cmd -> val_dec.
+  Variable o_mac : D -> cmd -> mac_dec.
+  Variable o_upd : D -> nat -> cmd -> D.
+  Variable G0 : list str.
+
+  Definition allowed (x : str) : Prop := In x G0 \/ In x (prog_globals prog) \/ x = REPEAT \/ x = ATTRS.
+  Definition Ginv (c : ctx) : Prop := forall x, In x (c_globals c) -> allowed x.
+
+  Lemma add_name_in x n l : In x (add_name n l) -> x = n \/ In x l.
+  Proof. unfold add_name. destruct (mem_str n l); simpl; intuition. Qed.
+
+  Lemma Ginv_add n c : allowed n -> Ginv c -> Ginv (add_global n c).
+  Proof. intros Hn H x Hx. simpl in Hx. apply add_name_in in Hx. destruct Hx; [subst; auto | auto]. Qed.
+
+  Lemma Ginv_same c c' : c_globals c' = c_globals c -> Ginv c -> Ginv c'.
+  Proof. intros E H x Hx. rewrite E in Hx. auto. Qed.
+
+  Lemma allowed_attrs : allowed ATTRS. Proof. right; right; right; reflexivity. Qed.
+  Lemma allowed_repeat : allowed REPEAT. Proof. right; right; left; reflexivity. Qed.
+
+  Lemma Ginv_touch c : Ginv c -> Ginv (touch_attrs c).
+  Proof. apply Ginv_add, allowed_attrs. Qed.
+
+  Lemma Ginv_pop c c' : pop_locals c = Some c' -> Ginv c -> Ginv c'.
+  Proof. unfold pop_locals. destruct (sc_pop (c_sc c)); [|discriminate]. intros E. inversion E. now apply Ginv_same. Qed.
+
+  Lemma Ginv_remove c c' : remove_repeat c = Some c' -> Ginv c -> Ginv c'.
+  Proof.
+    unfold remove_repeat. destruct (sc_remove_repeat (c_sc c)); [|discriminate]. intros E H. inversion E; subst.
+    intros x Hx. simpl in Hx. apply add_name_in in Hx. destruct Hx; [subst; apply allowed_repeat | auto].
+  Qed.
+
+  Lemma Ginv_add_repeat v c : Ginv c -> Ginv (add_repeat v c).
+  Proof. intros H x Hx. simpl in Hx. apply add_name_in in Hx. destruct Hx; [subst; apply allowed_repeat | auto]. Qed.
+
+  Lemma Ginv_defines : forall args fnd c fnd' c',
+    (forall a, In a args -> fst a = false -> allowed (fst (snd a))) ->
+    do_defines args fnd c = (fnd', c') -> Ginv c -> Ginv c'.
+  Proof.
+    induction args as [|[isloc [name e]] r IH]; intros fnd c fnd' c' Hall H G; simpl in H.
+    - inversion H; subst. exact G.
+    - assert (Hr : forall a, In a r -> fst a = false -> allowed (fst (snd a))) by (intros a Ha; apply Hall; now right).
+      destruct isloc.
+      + eapply IH; [exact Hr | exact H |]. destruct fnd; eapply Ginv_same; try apply (Ginv_touch c G); reflexivity.
+      + eapply IH; [exact Hr | exact H |]. apply Ginv_add; [|now apply Ginv_touch].
+        apply (Hall (false, (name, e))); [now left | reflexivity].
+  Qed.
+
+  Lemma define_allowed c args : In c prog -> c = CDefine args ->
+    forall a, In a args -> fst a = false -> allowed (fst (snd a)).
+  Proof.
+    intros Hc Ec a Ha Hf. right. left. unfold prog_globals. apply in_flat_map. exists c. split; [exact Hc|].
+    subst c. simpl. apply in_map_iff. exists a. split; [reflexivity|]. apply filter_In. split; [exact Ha|]. now rewrite Hf.
+  Qed.
+
+  Notation machD := (mach D).
+  Notation runD := (run prog tab subs D o_cond o_rep o_val o_mac o_upd).
+  Notation stepD := (step tab subs D o_cond o_rep o_val o_mac o_upd).
+
+  Lemma step_globals (call : nat -> machD -> res machD) c (m m1 : machD) :
+    In c prog ->
+    (forall L' mc r', call L' mc = Done r' -> Ginv (cx D mc) -> Ginv (cx D r')) ->
+    stepD call c m = Done m1 -> Ginv (cx D m) -> Ginv (cx D m1).
+  Proof.
+    intros Hc Hcall Hs G. unfold step in Hs.
+    destruct c; simpl in Hs.
+    - destruct (do_defines args false (cx D m)) as [found c1] eqn:Ed. inversion Hs; subst; simpl.
+      eapply Ginv_defines; [apply (define_allowed _ args Hc eq_refl) | exact Ed | exact G].
+    - destruct (o_cond _ _); [inversion Hs; subst; simpl; now apply Ginv_touch|].
+      destruct (lookup_sym tab sym); inversion Hs; subst; simpl; now apply Ginv_touch.
+    - destruct (r_rep (rg D m)) as [[|k]|].
+      + destruct (remove_repeat (cx D m)) as [c1|] eqn:E1; [|discriminate].
+        destruct (pop_locals c1) as [c2|] eqn:E2; [|discriminate].
+        destruct (lookup_sym tab sym); [|discriminate]. destruct (sstack D m) as [|[|] ss]; try discriminate.
+        inversion Hs; subst; simpl. eapply Ginv_pop; [exact E2|]. eapply Ginv_remove; eauto.
+      + inversion Hs; subst; simpl. eapply Ginv_same; [|exact G]. reflexivity.
+      + destruct (o_rep _ _).
+        * inversion Hs; subst; simpl. now apply Ginv_touch.
+        * destruct (lookup_sym tab sym); inversion Hs; subst; simpl. now apply Ginv_touch.
+        * inversion Hs; subst; simpl. apply Ginv_add_repeat. now apply Ginv_touch.
+    - destruct (o_val _ _); try (destruct (lookup_sym tab sym)); inversion Hs; subst; simpl; now apply Ginv_touch.
+    - inversion Hs; subst; simpl. now apply Ginv_touch.
+    - inversion Hs; subst; simpl. now apply Ginv_touch.
+    - inversion Hs; subst; simpl. exact G.
+    - inversion Hs; subst; simpl. exact G.
+    - destruct (r_fwd (rg D m)); inversion Hs; subst; simpl; exact G.
+    - (* ENDTAG_ENDSCOPE *)
+      assert (Fin : forall m2 : machD, Ginv (cx D m2) ->
+                match r_back (rg D m) with
+                | Some b => Done (set_pc D b m2)
+                | None =>
+                    match (if r_lvd (rg D m) then pop_locals (cx D m2) else Some (cx D m2)), sstack D m2 with
+                    | Some c2, SScope r0 :: ss => Done (next D (set_ss D ss (set_rg D r0 (set_cx D c2 m2))))
+                    | _, _ => Stuck
+                    end
+                end = Done m1 -> Ginv (cx D m1)).
+      { intros m2 G2 H. destruct (r_back (rg D m)); [inversion H; subst; exact G2|].
+        destruct (r_lvd (rg D m)).
+        - destruct (pop_locals (cx D m2)) as [c2|] eqn:E2; [|discriminate].
+          destruct (sstack D m2) as [|[|] ss]; try discriminate. inversion H; subst; simpl. eapply Ginv_pop; eauto.
+        - destruct (sstack D m2) as [|[|] ss]; try discriminate. inversion H; subst; simpl. exact G2. }
+      destruct (r_tc (rg D m)) as [| |s].
+      + eapply Fin; [|exact Hs]. exact G.
+      + eapply Fin; [|exact Hs]. exact G.
+      + destruct (lookup_sym tab (snd s)); [|discriminate].
+        destruct (call _ _) as [m2| |] eqn:Ec; try discriminate.
+        eapply Fin; [|exact Hs]. simpl. eapply Hcall; [exact Ec|]. exact G.
+    - inversion Hs; subst; simpl. exact G.
+    - destruct (o_mac _ _) as [| |i].
+      + destruct (lookup_sym tab sym); inversion Hs; subst; simpl; now apply Ginv_touch.
+      + inversion Hs; subst; simpl; now apply Ginv_touch.
+      + destruct (nth_error subs i); [destruct (lookup_sym tab sym)|]; inversion Hs; subst; simpl; now apply Ginv_touch.
+    - destruct (lookup_slot _ _); [destruct (lookup_sym tab sym)|]; inversion Hs; subst; simpl; exact G.
+  Qed.
+
+  Lemma run_globals : forall fuel L (m r : machD), runD fuel L m = Done r -> Ginv (cx D m) -> Ginv (cx D r).
+  Proof.
+    induction fuel as [|f IH]; intros L m r H G; [discriminate|].
+    simpl in H. destruct (Nat.leb L (pc D m)); [inversion H; subst; exact G|].
+    destruct (nth_error prog (pc D m)) as [c|] eqn:En; [|discriminate].
+    destruct (step tab subs D o_cond o_rep o_val o_mac o_upd (runD f) c m) as [m1| |] eqn:Es; try discriminate.
+    apply (IH L m1 r H). eapply step_globals; [eapply nth_error_In; eauto | | exact Es | exact G].
+    intros L' mc r' Hr Gc. eapply IH; eauto.
+  Qed.
+End Globals.
+
+Theorem globals_only_explicit :
+  forall (p : program) (t : symtab) (subs : list subt) (D : Type) o_cond o_rep o_val o_mac o_upd fuel (c : ctx) (d : D) mf,
+    vm_run p t subs D o_cond o_rep o_val o_mac o_upd fuel c d = Done mf ->
+    forall x, In x (c_globals (cx D mf)) ->
+      In x (c_globals c) \/ In x (prog_globals p) \/ x = REPEAT \/ x = ATTRS.
+Proof.
+  intros p t subs D o_cond o_rep o_val o_mac o_upd fuel c d mf H x Hx.
+  apply (run_globals p t subs D o_cond o_rep o_val o_mac o_upd (c_globals c) fuel (length p) _ mf H); [|exact Hx].
+  intros y Hy. left. exact Hy.
+Qed.
